@@ -211,14 +211,9 @@ func (vc *VC) localEffects(g *ssa.Function) (*EffectSet, []*ssa.Function) {
 					continue
 				}
 				if c.IsInvoke() {
-					if fc := vc.specs.contractFor(ifaceMethodName(c)); fc != nil && (fc.Pure || fc.HasMod) {
+					if fc := vc.specs.contractFor(vc.specs.ifaceName(c)); fc != nil && (fc.Pure || fc.HasMod) {
 						if fc.HasMod {
-							// region-based: conservatively the element heaps of slice arguments
-							for _, a := range c.Args {
-								if sl, ok := a.Type().Underlying().(*types.Slice); ok {
-									e.heaps[elemHeapName(sl.Elem())] = true
-								}
-							}
+							vc.ifaceModHeaps(fc, c, e)
 						}
 						continue
 					}
@@ -233,6 +228,14 @@ func (vc *VC) localEffects(g *ssa.Function) (*EffectSet, []*ssa.Function) {
 				if mc, ok := c.Value.(*ssa.MakeClosure); ok {
 					callees = append(callees, mc.Fn.(*ssa.Function))
 					continue
+				}
+				if n := fieldFuncName(c.Value); n != "" {
+					if fc := vc.specs.contractFor(n); fc != nil && (fc.Pure || fc.HasMod) {
+						if fc.HasMod {
+							vc.ifaceModHeaps(fc, c, e)
+						}
+						continue
+					}
 				}
 				e.top = true
 				e.callsUnknown = true
@@ -310,13 +313,47 @@ func (vc *VC) modHeapNames(fc *FuncContract, g *ssa.Function) []string {
 					out = append(out, mapHasName(t), mapValName(t), mapLenName(t))
 				}
 			}
+		case *EIndex:
+			if id, ok := x.X.(*EIdent); ok {
+				if gh := vc.specs.ghost(id.Name); gh != nil {
+					out = append(out, gh.heapName())
+				}
+			}
 		case *EIdent:
-			if g.Pkg != nil {
+			if gh := vc.specs.ghost(x.Name); gh != nil {
+				out = append(out, gh.heapName())
+			} else if g.Pkg != nil {
 				out = append(out, globalName(g.Pkg.Pkg.Path(), x.Name))
 			}
 		}
 	}
 	return out
+}
+
+// ifaceModHeaps over-approximates the write set of an interface-method
+// contract by heap names: ghost state it names, and the element heaps of the
+// slice arguments.
+func (vc *VC) ifaceModHeaps(fc *FuncContract, c *ssa.CallCommon, e *EffectSet) {
+	for _, l := range fc.Modifies {
+		switch x := l.(type) {
+		case *EIdent:
+			if gh := vc.specs.ghost(x.Name); gh != nil {
+				e.heaps[gh.heapName()] = true
+			}
+		case *EIndex:
+			if id, ok := x.X.(*EIdent); ok {
+				if gh := vc.specs.ghost(id.Name); gh != nil {
+					e.heaps[gh.heapName()] = true
+				}
+			}
+		case *ESlice:
+			for _, a := range c.Args {
+				if sl, ok := a.Type().Underlying().(*types.Slice); ok {
+					e.heaps[elemHeapName(sl.Elem())] = true
+				}
+			}
+		}
+	}
 }
 
 // callEffects gives the effect set of one call instruction.
@@ -337,13 +374,9 @@ func (vc *VC) callEffects(fr *Frame, c *ssa.CallCommon) *EffectSet {
 	}
 	var callee *ssa.Function
 	if c.IsInvoke() {
-		if fc := vc.specs.contractFor(ifaceMethodName(c)); fc != nil && (fc.Pure || fc.HasMod) {
+		if fc := vc.specs.contractFor(vc.specs.ifaceName(c)); fc != nil && (fc.Pure || fc.HasMod) {
 			if fc.HasMod {
-				for _, a := range c.Args {
-					if sl, ok := a.Type().Underlying().(*types.Slice); ok {
-						e.heaps[elemHeapName(sl.Elem())] = true
-					}
-				}
+				vc.ifaceModHeaps(fc, c, e)
 			}
 			return e
 		}
@@ -366,6 +399,15 @@ func (vc *VC) effectsOfCall(fr *Frame, c *ssa.CallCommon, callee *ssa.Function) 
 		return vc.callEffects(fr, c)
 	}
 	if callee == nil {
+		if n := fieldFuncName(c.Value); n != "" {
+			if fc := vc.specs.contractFor(n); fc != nil && (fc.Pure || fc.HasMod) {
+				e := &EffectSet{heaps: map[string]bool{}}
+				if fc.HasMod {
+					vc.ifaceModHeaps(fc, c, e)
+				}
+				return e
+			}
+		}
 		return &EffectSet{top: true, callsUnknown: true, heaps: map[string]bool{}}
 	}
 	return vc.effectsOf(callee)
